@@ -56,13 +56,13 @@ def plan(tier, seed):
         loads[i] += c[2]
     specs = [{"name": "grid%02d" % i, "kind": "grid", "cells": s, "timeout": 3000} for i, s in enumerate(shards)]
     specs.append({"name": "coef", "kind": "coef", "timeout": 3000})
-    specs.append({"name": "large0", "kind": "large", "shard": 0, "cases": 3000 if tier == "quick" else 40000, "timeout": 3000})
-    specs.append({"name": "large1", "kind": "large", "shard": 1, "cases": 3000 if tier == "quick" else 40000, "timeout": 3000})
+    specs.append({"name": "large0", "kind": "large", "shard": 0, "cases": 3000 if tier == "quick" else 300000, "timeout": 5000})
+    specs.append({"name": "large1", "kind": "large", "shard": 1, "cases": 3000 if tier == "quick" else 300000, "timeout": 5000})
     specs.append({"name": "count", "kind": "count", "timeout": 3000})
     for i in range(4):
-        specs.append({"name": "high%d" % i, "kind": "high", "shard": i, "cases": 4000 if tier == "quick" else 30000, "timeout": 3000})
+        specs.append({"name": "high%d" % i, "kind": "high", "shard": i, "cases": 4000 if tier == "quick" else 200000, "timeout": 5000})
     for i in range(2):
-        specs.append({"name": "gfields%d" % i, "kind": "gfields", "shard": i, "cases": 1500 if tier == "quick" else 15000, "timeout": 3000})
+        specs.append({"name": "gfields%d" % i, "kind": "gfields", "shard": i, "cases": 1500 if tier == "quick" else 100000, "timeout": 5000})
     if tier == "thorough":
         specs.append({"name": "gridbc", "kind": "grid", "cells": [c for c in cells if c[2] <= 3000], "timeout": 3000,
                       "mode": {"boundscheck": True}})
